@@ -51,7 +51,7 @@ CLAIMED = {
    note="Outside (not decided): the every-field sweep over real serialised documents (whether every member reaches the serialisation: reflection and encoding/json are beyond the encoder) and the re-encoding half, which rests on C07's member-order / escape independence. Injectivity of marshal/c14n/sha256 is an assumption.",
    ref="DESIGN.md 5 (C08)"),
  "C10": dict(
-   text="Bounded model checking of the envelope lifecycle by symbolic execution with z3: every history of 3 (thorough 4) operations drawn from {calculate, edit document, sign with key 0 / key 1, unsign, add or overwrite stamp pa (symbolic value), add stamp pb, validate, verify}, from a calculated or uncalculated start and for each of the four document-validity kinds, is run through the real Envelope / Header / Stamp / Digest code and compared step by step with a reference state machine over the four facts (digest matches, document valid / valid once signed, signatures present, header contains each signed header): signing succeeds iff the envelope would validate as a signed one, a failed signing leaves no signature, stamps validate only on signed envelopes, verify succeeds iff every signature's key is supplied and its signed header is still contained, every signature entry carries a JWS. Content tokens and stamp values are symbolic; counterexamples are replayed natively with real documents (message, invalid message, invoice without code), real ES256 keys and signatures.",
+   text="Bounded model checking of the envelope lifecycle by symbolic execution with z3: every history of 3 (thorough 5) operations drawn from {calculate, edit document, sign with key 0 / key 1, unsign, add or overwrite stamp pa (symbolic value), add stamp pb, validate, verify}, from a calculated or uncalculated start and for each of the four document-validity kinds, is run through the real Envelope / Header / Stamp / Digest code and compared step by step with a reference state machine over the four facts (digest matches, document valid / valid once signed, signatures present, header contains each signed header): signing succeeds iff the envelope would validate as a signed one, a failed signing leaves no signature, stamps validate only on signed envelopes, verify succeeds iff every signature's key is supplied and its signed header is still contained, every signature entry carries a JWS. Content tokens and stamp values are symbolic; counterexamples are replayed natively with real documents (message, invalid message, invoice without code), real ES256 keys and signatures.",
    note="Stubs: document content as an abstract token with injective marshal/c14n/sha256 (C08), document validity as harness flags, JWS sign/verify contract, model of the validation library's reflective dispatcher. Outside: histories longer than the bound (no induction), links/tags/meta (containment decided in C09), parsing envelopes from JSON, insert of arbitrary document types.",
    ref="DESIGN.md 5 (C10)"),
  "C07": dict(
